@@ -262,9 +262,12 @@ impl<S: Fstat + Open + Select + Signals + WaitForSignals> SearchEnv<'_, S> {
         let Ok(path) = CString::new(self.prefix.as_str()) else {
             return false;
         };
+        // The pathname exists if its last component names a directory entry,
+        // even if the entry is a symbolic link to a non-existent file. (With a
+        // trailing slash, the link is still followed to find a directory.)
         self.env
             .system
-            .fstatat(AT_FDCWD, &path, /* follow symlinks */ true)
+            .fstatat(AT_FDCWD, &path, /* follow symlinks */ false)
             .is_ok()
     }
 
